@@ -57,6 +57,42 @@ def _dialect_statements(per_dialect: int, rnd: random.Random) -> list[tuple[str,
     return out
 
 
+def _greedy_cover(stmts: list[tuple[str, str]], n: int) -> list[tuple[str, str]]:
+    """Orders candidate statements so that each next one adds the most node classes / argument keys not seen so far
+    (the generator has one method per node class, each with its own pretty branch): a small corpus then reaches many
+    more *_sql methods than a random draw.  Ties keep the seed-shuffled order."""
+    import sqlglot
+    from sqlglot import exp
+
+    feats = []
+    for d, sql in stmts:
+        try:
+            tree = sqlglot.parse_one(sql, read=d or None)
+        except Exception:
+            continue
+        f = set()
+        for node in tree.walk():
+            f.add(type(node).__name__)
+            for k, v in node.args.items():
+                if v not in (None, [], False):
+                    f.add(type(node).__name__ + "." + k)
+            if node.comments:
+                f.add("comment:" + type(node).__name__)
+        feats.append(((d, sql), f))
+    chosen, seen = [], set()
+    pool = list(feats)
+    while pool and len(chosen) < n:
+        best_i, best_gain = 0, -1
+        for i, (_st, f) in enumerate(pool[:400]):
+            gain = len(f - seen)
+            if gain > best_gain:
+                best_i, best_gain = i, gain
+        st, f = pool.pop(best_i)
+        chosen.append(st)
+        seen |= f
+    return chosen
+
+
 _VET = r'''
 import json, os, sys, importlib.util
 cands = json.load(sys.stdin)
@@ -91,7 +127,7 @@ print("VET " + json.dumps(res))
 def vet(cands: list[tuple[str, str]]) -> list[list]:
     """Concrete pre-pass in the plain interpreter: keeps statements on which the token filter agrees with the property's
     criterion for four probe settings; reports genuine violations found on the way (not the deciding step)."""
-    env = dict(os.environ, PYTHONPATH=VERIF + ":/repo")
+    env = dict(os.environ, PYTHONPATH=VERIF + ":" + os.environ.get("VERIF_REPO", "/repo"))
     p = subprocess.run([PY_PLAIN, "-c", _VET], input=json.dumps(cands), capture_output=True, text=True, env=env, cwd=VERIF)
     for line in p.stdout.splitlines():
         if line.startswith("VET "):
@@ -103,21 +139,15 @@ def obligations(tier: str, seed: int):
     rnd = random.Random(seed)
     fix = [c for c in _fixture_statements() if len(c[1]) <= 400]
     rnd.shuffle(fix)
-    n_fix = 70 if tier == "quick" else 200
-    # statements that carry comments or are long exercise most pretty/comment branches: put them first
-    fix.sort(key=lambda c: -(("/*" in c[1] or "--" in c[1]) * 2 + (len(c[1]) > 90)))
-    head = fix[: n_fix // 2]
-    tail = fix[n_fix // 2:]
-    rnd.shuffle(tail)
-    cands = head + tail[: n_fix - len(head)]
-    rnd.shuffle(cands)
+    n_fix = 60 if tier == "quick" else 260
+    cands = _greedy_cover(fix, n_fix)
     if tier != "quick":
         cands += _dialect_statements(3, rnd)
     vetted = vet(cands)
     pre_violations = []
     corpus = []
     stats = {"candidates": len(cands), "skipped": 0, "filter_incompatible": 0}
-    want = 36 if tier == "quick" else 150
+    want = 22 if tier == "quick" else 150
     per_dialect = {}
     for d, sql, verdict, detail in vetted:
         if verdict == "ok":
